@@ -1,12 +1,17 @@
 (* Entry points for the extracted driver: data -> data *)
 From Coq Require Import List ZArith Bool.
 Import ListNotations.
-Require Import DH.Common.Data DH.Common.VecOrd DH.C12_Hypervolume.Model DH.C12_Hypervolume.Check.
+Require Import DH.Common.Data DH.Common.VecOrd DH.C12_Hypervolume.Model DH.C12_Hypervolume.Check
+  DH.C12_Hypervolume.ModelRecorder DH.C12_Hypervolume.CheckRecorder.
 Open Scope Z_scope.
 
 Definition d_vec (d : data) : vec := dmap dZ d.
 Definition d_pts (d : data) : list vec := dmap d_vec d.
 Definition z (k : nat) (d : data) : Z := dZ (dnth k d).
+
+(* event: (0) = failure, (1 (v...)) = objective vector *)
+Definition d_event (d : data) : event := if dZ (dnth 0 d) =? 0 then EFail else EObj (d_vec (dnth 1 d)).
+Definition d_events (d : data) : list event := dmap d_event d.
 
 Definition entries : list (Z * (data -> data)) :=
   [ (1201, fun d => eZ (hv_nd (d_vec (dnth 0 d)) (d_pts (dnth 1 d))));                       (* [ref, pts] *)
@@ -18,4 +23,7 @@ Definition entries : list (Z * (data -> data)) :=
     (1207, fun d => ebool (ok_close (z 0 d) (d_vec (dnth 1 d)) (d_pts (dnth 2 d)) (z 3 d) (z 4 d) (z 5 d) (z 6 d)));
     (1208, fun d => ebool (ok_le (z 0 d) (z 1 d) (z 2 d) (z 3 d)));                            (* [n1, d1, n2, d2] *)
     (1209, fun d => ebool (ok_eq (z 0 d) (z 1 d) (z 2 d) (z 3 d)));
-    (1210, fun d => ebool (ok_case (d_vec (dnth 0 d)) (d_pts (dnth 1 d)))) ].                  (* [ref, pts] *)
+    (1210, fun d => ebool (ok_case (d_vec (dnth 0 d)) (d_pts (dnth 1 d))));                    (* [ref, pts] *)
+    (1211, fun d => eopt eZ (rec_out (dnat (dnth 0 d)) (d_events (dnth 1 d))));                (* [d, events] *)
+    (1212, fun d => ebool (ok_rec_exact (z 0 d) (dnat (dnth 1 d)) (d_events (dnth 2 d)) (z 3 d) (z 4 d)));   (* [s, d, events, num, den] *)
+    (1213, fun d => ebool (ok_rec_close (z 0 d) (dnat (dnth 1 d)) (d_events (dnth 2 d)) (z 3 d) (z 4 d) (z 5 d) (z 6 d))) ].
